@@ -89,14 +89,19 @@ def gen_case(rnd):
         a, k = call(bad_ok=False)
         res = rnd.choice(LITS) if rnd.random() < .8 else None
         examples.append((a, k, res))
-    for a, k, res in examples:
-        cmp_ = f' == {res}' if res is not None else ' != 77'
-        lines.append(f'@deal.example(lambda: g({fmt(a, k)}){cmp_})')
-        items.append({'kind': 'example', 'row': len(lines), 'args': a, 'kwargs': k, 'sig': sig, 'result': res,
-                      'validators': [['pre', p] for p in pres] + [['post', p] for p in posts] + [['ensure', e] for e in ensures]})
-    for p in pres: lines.append(f'@deal.pre({p})')
-    for p in posts: lines.append(f'@deal.post({p})')
-    for e in ensures: lines.append(f'@deal.ensure({e})')
+    # the contract decorators in a random order (the rules walk func.contracts in source order)
+    decos = [('example', ex) for ex in examples] + [('pre', p) for p in pres] + [('post', p) for p in posts] + [('ensure', e) for e in ensures]
+    rnd.shuffle(decos)
+    ordered = [[c, v] for c, v in decos if c != 'example']
+    pres = [v for c, v in ordered if c == 'pre']; posts = [v for c, v in ordered if c == 'post']
+    for c, v in decos:
+        if c == 'example':
+            a, k, res = v
+            cmp_ = f' == {res}' if res is not None else ' != 77'
+            lines.append(f'@deal.example(lambda: g({fmt(a, k)}){cmp_})')
+            items.append({'kind': 'example', 'row': len(lines), 'args': a, 'kwargs': k, 'sig': sig, 'result': res, 'validators': ordered})
+        else:
+            lines.append(f'@deal.{c}({v})')
     lines.append(f'def g({sig}):')
     rets = [rnd.choice(LITS) for _ in range(rnd.randint(1, 3))]
     for i, v in enumerate(rets):
@@ -155,7 +160,7 @@ def run(ctx, fr, model_available=True, cases=None):
     rnd = random.Random(ctx.seed * 23 + 17)
     import glob
     cases = cases if cases is not None else ([json.load(open(f)) for f in sorted(glob.glob(os.path.join(coq.VERIF, 'corpus', 'C17', '*.json')))]
-                                              + [gen_case(rnd) for _ in range(2500 if ctx.tier == 'thorough' else 300)])
+                                              + [gen_case(rnd) for _ in range(1200 if ctx.tier == 'thorough' else 300)])
     res = []
     for i in range(0, len(cases), 150):
         res += impl.run_impl('c17_exec.py', cases[i:i + 150], timeout=1500)
